@@ -43,6 +43,8 @@ type pResult struct {
 	b         *sbuild
 	failed    []error
 	srcPosAt  []map[int]int
+	closedAtReturn    map[*Src]int
+	spyClosedAtReturn map[*closeSpy]int
 }
 
 func pipelineWorld(r *R) {
@@ -181,7 +183,7 @@ func pipelineWorld(r *R) {
 				plan.srcErr[s.id] = NewErr(fmt.Sprintf("srcE%d@%d", s.id, s.p))
 			}
 			sc.mode = []string{"iterate", "iterate", "iterate", "collect", "reduce", "last", "one", "sample"}[r.Choose(8, "fault-consumer")]
-			sc.lastN = 2
+			sc.lastN = 2 * r.Choose(2, "fault-consumer-n")
 		case "src_transient":
 			plan.transient[s.id] = map[int]error{s.p: NewErr(fmt.Sprintf("transient%d@%d", s.id, s.p))}
 		case "src_slow_deadline":
@@ -194,7 +196,7 @@ func pipelineWorld(r *R) {
 			plan.cbFail = s.p
 			plan.cbErr = NewErr(fmt.Sprintf("cbE@%d", s.p))
 			sc.mode = []string{"iterate", "iterate", "iterate", "collect", "reduce", "last", "one", "sample"}[r.Choose(8, "fault-consumer")]
-			sc.lastN = 2
+			sc.lastN = 2 * r.Choose(2, "fault-consumer-n")
 		case "ctx_precancelled":
 			sc.preCancel = map[int]bool{s.p: true}
 		case "abandon":
@@ -203,6 +205,9 @@ func pipelineWorld(r *R) {
 			sc.mode = s.kind[len("reducer-"):]
 			if sc.mode == "last" {
 				sc.lastN = 2
+			}
+			if sc.mode == "sample" {
+				sc.lastN = []int{3, 0, 1, len(X), len(X) + 1}[r.Choose(5, "sample-k")]
 			}
 		}
 		return plan, sc
@@ -393,11 +398,20 @@ func pipelineExec(r *R, prog *pnode, plan *faultPlan, sc *pScript, checkLazy boo
 	case "sample":
 		task.Label = "xrand.RSampleStream on " + prog.op
 		rng := rand.New(rand.NewSource(int64(r.Choose(1000, "sample-seed"))))
-		out, err := xrand.RSampleStream(root.C, rng, s, 3)
+		out, err := xrand.RSampleStream(root.C, rng, s, sc.lastN)
 		res.retVal, res.term = out, err
 		res.ended = err == nil
 	}
 	task.Label = ""
+	// ownership is judged at this instant: "by the time the reducer / the returned stream's Close returns"
+	res.closedAtReturn = map[*Src]int{}
+	for _, src := range b.srcs {
+		res.closedAtReturn[src] = len(src.Closed)
+	}
+	res.spyClosedAtReturn = map[*closeSpy]int{}
+	for _, sp := range b.spies {
+		res.spyClosedAtReturn[sp] = sp.Closes
+	}
 	// let background goroutines finish
 	for i := 0; i < 200 && len(LibraryTasks()) > 0; i++ {
 		sim.WaitIdle("pipeline-settle")
@@ -490,6 +504,10 @@ func pipelineJudge(r *R, prog *pnode, res *pResult, plan *faultPlan, sc *pScript
 			r.Violate("C09", "misuse/next-after-close/"+sp.owner, "%s called Next on its %s input after closing it (program %v)", sp.owner, sp.what, prog)
 			return
 		}
+		if n, ok := res.spyClosedAtReturn[sp]; ok && n == 0 && sp.Closes == 1 {
+			r.Violate("C09", "closed-late/"+sp.owner, "the %s stream handed to %s had not been closed yet when %s returned (it was closed afterwards, in the background) (program %v)", sp.what, sp.owner, via, prog)
+			return
+		}
 		if sp.Closes != 1 {
 			r.Violate("C09", fmt.Sprintf("close-count/%s/closes=%d", sp.owner, sp.Closes), "the %s stream handed to %s was closed %d times by the time %s returned (program %v)", sp.what, sp.owner, sp.Closes, via, prog)
 			return
@@ -498,6 +516,10 @@ func pipelineJudge(r *R, prog *pnode, res *pResult, plan *faultPlan, sc *pScript
 	for _, s := range b.srcs {
 		if len(s.Violations) > 0 {
 			r.Violate("C09", "misuse/"+s.Violations[0]+"/"+b.owner[s], "source %s (given to %s): %v (program %v)", s.Name, b.owner[s], s.Violations, prog)
+			return
+		}
+		if n, ok := res.closedAtReturn[s]; ok && n == 0 && len(s.Closed) == 1 {
+			r.Violate("C09", "closed-late/"+b.owner[s], "source %s, handed to %s, had not been closed yet when %s returned (it was closed afterwards, in the background) (program %v)", s.Name, b.owner[s], via, prog)
 			return
 		}
 		if len(s.Closed) != 1 {
@@ -656,7 +678,7 @@ func pipelineJudge(r *R, prog *pnode, res *pResult, plan *faultPlan, sc *pScript
 		pipelineReducerJudge(r, prog, res, fired, srcFired, "Reduce", func() bool { return prog.has("merge", "batch") || res.retVal[0] == acc }, fmt.Sprint(acc))
 	case "sample":
 		pipelineReducerJudge(r, prog, res, fired, srcFired, "SampleStream", func() bool {
-			k := 3
+			k := sc.lastN
 			if len(X) < k {
 				k = len(X)
 			}
